@@ -2,3 +2,5 @@ import FeemsModel.Model.Basic
 import FeemsModel.Model.KeyedList
 import FeemsModel.Model.Fuel
 import FeemsModel.Model.Result
+import FeemsModel.Model.Integrate
+import FeemsModel.Model.Storage
